@@ -22,7 +22,7 @@ PRE = ("import numpy as np, warnings, nengo, nengo_spa as spa\nfrom nengo_spa.se
        "from nengo_spa.ast.symbolic import PointerSymbol\nfrom nengo_spa.types import TVocabulary\n"
        "from nengo_spa.algebras.vtb_algebra import VtbAlgebra\nwarnings.simplefilter('ignore')\n")
 
-DIMS = [16, 16, 32, 16]   # vocabulary 3 uses VTB
+DIMS = [16, 16, 32, 16, 16]   # vocabulary 3 uses VTB; vocabulary 4 has no keys (an empty vocabulary is falsy in Python)
 
 
 def run(rep, tier, rng):
@@ -40,18 +40,28 @@ def run(rep, tier, rng):
             spa.Vocabulary(32, pointer_gen=np.random.RandomState(3)), spa.Vocabulary(16, algebra=V, pointer_gen=np.random.RandomState(4))]
     for v in vocs:
         v.populate("A; B")
+    vocs.append(spa.Vocabulary(16, pointer_gen=np.random.RandomState(5), strict=False))      # stays empty
     cdims = c.lst([str(d) for d in DIMS])
 
     # operand descriptors: (kind, vocab index or None, extra)
     operands = []
     for vi in range(4):
         operands += [("KSp", vi, None), ("KSym", vi, None), ("KDyn", vi, None)]
+    # the empty vocabulary: a module of it, a typed symbol, and operands explicitly reinterpreted into it
+    operands += [("KDyn", 4, None), ("KSym", 4, None), ("KSp", 4, "reint"), ("KDyn", 4, "reint"), ("KDyn", 1, "transcode-out")]
     operands += [("KSp", None, "hrr16"), ("KSp", None, "vtb16"), ("KSp", None, "hrr32"), ("KSym", None, None),
                  ("KDynScalar", None, None), ("KNum", None, "int"), ("KNum", None, "np.float64"), ("KArr", None, 16)]
 
     def build(desc, special=None):
         """special: None (regular value), 'zero' or 'unit' - the gate must not depend on the operand's value."""
         k, vi, ex = desc
+        if k == "KSp" and ex == "reint":
+            return vocs[0]["A"].reinterpret(vocs[vi])
+        if k == "KDyn" and ex == "reint":
+            return spa.reinterpret(as_ast_node(spa.State(vocs[0])), vocs[vi])
+        if k == "KDyn" and ex == "transcode-out":
+            # a Transcode whose input and output vocabularies differ: as a source it has its output vocabulary
+            return as_ast_node(spa.Transcode(lambda t, p: p.v, input_vocab=vocs[0], output_vocab=vocs[vi]))
         if k == "KSp":
             if vi is not None:
                 if special is None:
@@ -120,7 +130,7 @@ def run(rep, tier, rng):
     OPS = {"PAdd": ("+", operator.add), "PSub": ("-", operator.sub), "PMul": ("*", operator.mul),
            "PDiv": ("/", operator.truediv), "PDot": ("@", operator.matmul),
            "PCompare": ("compare", lambda a, b: a.compare(b)), "PMse": ("mse", lambda a, b: a.mse(b)),
-           "PRoute": (">>", None)}
+           "PRoute": (">>", None), "PRouteT": (">> Transcode(input_vocab != output_vocab)", None)}
     exprs, meta = [], []
     MODES = [(None, None), ("zero", None), (None, "zero"), ("zero", "zero"), ("unit", "unit")]
     for op, (sym_, fn), (sa, sb) in ((o, f, m) for o, f in OPS.items() for m in MODES):
@@ -131,9 +141,9 @@ def run(rep, tier, rng):
                 continue
             if op in ("PCompare", "PMse") and not (da[0] == "KSp" and db[0] in ("KSp",)):
                 continue
-            if op == "PRoute" and db[0] != "KDyn":
+            if op in ("PRoute", "PRouteT") and (db[0] != "KDyn" or db[2] is not None):
                 continue
-            if op == "PRoute" and da[0] in ("KArr",):
+            if op in ("PRoute", "PRouteT") and da[0] in ("KArr",):
                 continue
             with spa.Network():
                 try:
@@ -141,11 +151,27 @@ def run(rep, tier, rng):
                     if op == "PRoute":
                         sink = spa.State(vocs[db[1]])
                         r = a >> sink
+                    elif op == "PRouteT":
+                        # one node is both input and output, declared with different vocabularies: `>>` checks the input's
+                        other_v = vocs[1] if db[1] != 1 else vocs[0]
+                        sink = spa.Transcode(lambda t, p: p.v[:other_v.dimensions] if len(p.v) >= other_v.dimensions else np.zeros(other_v.dimensions),
+                                             input_vocab=vocs[db[1]], output_vocab=other_v)
+                        r = a >> sink
                     else:
                         b_ = build(db, sb)
                         r = fn(a, b_)
                         if r is NotImplemented:
                             raise TypeError("NotImplemented returned")
+                    if isinstance(r, SemanticPointer) and op in ("PAdd", "PSub", "PMul") and isinstance(a, SemanticPointer) and isinstance(b_, SemanticPointer):
+                        # an accepted combination carries ONE algebra: the vector is that algebra's operation on the operands
+                        RA = r.algebra
+                        want = {"PAdd": lambda: RA.superpose(a.v, b_.v), "PSub": lambda: RA.superpose(a.v, -b_.v), "PMul": lambda: RA.bind(a.v, b_.v)}[op]()
+                        rep.count("accepted-value-in-result-algebra")
+                        if not np.allclose(r.v, want, atol=1e-9 * (1 + np.abs(want).max())):
+                            rep.violation(f"{da} {sym_} {db}: the accepted result claims algebra {type(RA).__name__} but its vector is not that algebra's "
+                                          f"operation on the operands (operand algebras {type(a.algebra).__name__}, {type(b_.algebra).__name__})",
+                                          {"case": {"op": sym_, "a": da, "b": db, "values": [sa or "regular", sb or "regular"]},
+                                           "python": "assert False, 'result vector computed in another algebra than the result claims'\n"})
                     if isinstance(r, np.ndarray) and r.dtype == object:
                         obs, o_py = "(CAccepted None)", "object ndarray"
                     else:
@@ -156,7 +182,8 @@ def run(rep, tier, rng):
                     obs, o_py = "COtherError", type(e).__name__
             same_alg = alg_of(da) == alg_of(db)
             dd = dim_of(da) is not None and dim_of(db) is not None and dim_of(da) != dim_of(db)
-            exprs.append(f"c03_check {cdims} {op} {da[0]} {db[0]} {ty_of(da)} {ty_of(db)} {c.b(same_alg)} {c.b(dd)} {obs}")
+            cop = "PRoute" if op == "PRouteT" else op
+            exprs.append(f"c03_check {cdims} {cop} {da[0]} {db[0]} {ty_of(da)} {ty_of(db)} {c.b(same_alg)} {c.b(dd)} {obs}")
             meta.append({"op": sym_, "a": da, "b": db, "observed": o_py, "same_alg": same_alg, "values": [sa or "regular", sb or "regular"]})
             rep.case((op, da, db, sa, sb), nontrivial=da[0] not in ("KNum", "KArr") and db[0] not in ("KNum", "KArr"),
                      sample={"op": sym_, "left": da, "right": db, "observed": o_py} if op == "PAdd" and da == ("KSp", 0, None) and db[0] == "KSym" else None)
